@@ -64,12 +64,16 @@ CHECK = {
         "the z axis, positive helicity, dir_y != 0, up to the first boundary landing); the four ways of "
         "leaving it are exercised once each (case ids zhx=1..4) and reported",
     ],
-    "bounds": {"quick": {"stepper_field_pairs": 15, "options": 9, "ratios": 9, "steps": "7 (+2 sub-resolution)",
+    "bounds": {"quick": {"stepper_field_pairs": 15, "options": 9,
+                         "species": "e-, e+ on the whole lattice; alpha (q=+2, m=3727.379) and neutral (q=0, m=0) on "
+                                    "the sub-lattice default options x radius idx 3..5 x non-ZHelix B != 0 (195 blocks)", "ratios": 9, "steps": "7 (+2 sub-resolution)",
                          "k": [1, 2, 5], "rzmap_value_points": 4095, "rz_maps": "rzu, rzs, rzi (tight driver_options), rzh (hollow, value only)", "nolimit_cases": 2832,
                          "thinning": "checkerboard half of (interior point, direction), of (start, step) "
                                      "with a block-dependent colour, and of (radius, options, charge); "
                                      "5 tangent angles"},
-               "thorough": {"stepper_field_pairs": 31, "options": 10, "ratios": 9,
+               "thorough": {"stepper_field_pairs": 31, "options": 10,
+                            "species": "e-, e+ on the whole lattice; alpha and neutral on the sub-lattice default "
+                                       "options x radius idx 3..5 x non-ZHelix B != 0", "ratios": 9,
                             "steps": "7 (+2 sub-resolution)", "k": [1, 2, 5],
                             "thinning": "checkerboard half of (start, step) with a block-dependent colour, "
                                         "none for head-on and redirected on-boundary starts; 7 tangent "
